@@ -842,7 +842,7 @@ class Exec:
             return z3.fpFPToFP(RNE, v, self.fsort(dt))
         if op in ("sitofp", "uitofp"):
             if self.mode == "REAL":
-                if z3.is_bv(v) and not z3.is_bv_value(v):
+                if z3.is_bv(v) and not z3.is_bv_value(v) and os.environ.get("VP_ABSTRACT_WORDS"):
                     # over-approximation: the converted word is an arbitrary real in the type's range (integrality dropped)
                     k = (v.get_id(), op)
                     if k not in self.u2r:
@@ -1179,6 +1179,25 @@ class Exec:
             if self.mode == "UF":
                 raise Inconclusive("order in UF mode")
             return self.i1(args[0] <= args[1])
+        if name == "snprintf":
+            # formatting is captured, not executed: the harness callback vp_on_snprintf(fmt, mantissa, suffix) / vp_on_snprintf1(fmt, value) states the obligations
+            cbn = "vp_on_snprintf" if len(args) == 5 else "vp_on_snprintf1"
+            cb = self.m.funcs.get(cbn)
+            if cb is None or cb.is_decl:
+                raise Inconclusive("snprintf without a harness callback")
+            cargs = [args[2]] + args[3:]
+            # coerce to the callback's parameter kinds
+            for i, (pt, _, _) in enumerate(cb.params[1:], start=1):
+                a = cargs[i]
+                if pt.is_fp and z3.is_fp(a) and a.sort() != self.fsort(pt):
+                    a = z3.fpFPToFP(RNE, a, self.fsort(pt))
+                cargs[i] = a
+            saved = st.vals
+            rs = self.call(st, cb, cargs)
+            st.vals = saved
+            if not rs:
+                return ("dead",)
+            return self.iconst(0, 32)
         if name.startswith("llvm."):
             return self.intrinsic(st, ins, name, args)
         if name in ("sqrtf", "sqrt", "sinf", "sin", "cosf", "cos", "fabsf", "fabs", "floorf", "floor", "ceilf", "ceil", "roundf", "round",
